@@ -33,6 +33,17 @@ class Sess(SessionStream):
     quick_cases = 450
     quick_seconds = 30
 
+    def oracle(self, case, obs):
+        # an exception that leaves the body of a `with session.prepare_attachment(..)` block (thrown into the context manager,
+        # file written or not) must come out of the block: swallowed, the code after the block carries on and the unit that
+        # raised is reported as if nothing had happened
+        if obs.get("error") == "abortSwallowed":
+            op = case["ops"][obs["accepted"]] if obs.get("accepted", 0) < len(case["ops"]) else None
+            return [C.Failure("C02/uncaught-exception-swallowed/prepare_attachment",
+                              "the exception raised in the body of a prepare_attachment block did not leave the block (op %d: %r)"
+                              % (obs.get("accepted", -1), op))]
+        return []
+
 
 class Run(PropRunStream):
     name = "C02.run"
@@ -44,7 +55,7 @@ class Run(PropRunStream):
     p_files = 0.45              # the real json + junit backends saving the report during the run (`--reporting json junit --save-report …`)
     file_backends = ("json", "junit")
     savings = ("at_each_test", "at_each_test", "at_each_log", "at_each_failed_test", "at_each_suite")
-    corpus = W2.FILE_BACKEND_CONTROLS + [witness("N1 "), witness("D11 ")] + W2.CONTROLS + W2.CONTROLS2 + W2.CONTROLS3 + [W2.THREAD_ENDS_WITH_PANIC] + W2.CONTROLS4
+    corpus = W2.UNWRITTEN_ATTACHMENTS + W2.FILE_BACKEND_CONTROLS + [witness("N1 "), witness("D11 ")] + W2.CONTROLS + W2.CONTROLS2 + W2.CONTROLS3 + [W2.THREAD_ENDS_WITH_PANIC] + W2.CONTROLS4
     p_interrupt = 0.2
 
 
@@ -57,6 +68,18 @@ class Cli(CliStream):
 
 TRUSTED_BASE = TRUSTED_BASE + CLI_TRUSTED
 RULE = RULE + "; " + CLI_RULE
+
+
+LEAN_MODULES = LEAN_MODULES + ["LccModel.Props.C02Attach"]
+PROPS_FILES = PROPS_FILES + ["LccModel/Props/C02Attach.lean"]
+NAMESPACES = dict(NAMESPACES, **{"LccModel/Props/C02Attach.lean": "LccModel.C02Attach"})
+RULE = RULE + ("; run stream also: attachment blocks that write their file as their LAST statement (50 % of the blocks) and are left by the "
+               "failing act before that (14..18 % of the failing scripts), `lcc.save_attachment_file` on a missing source file (10..12 % of the "
+               "failing scripts) — in test bodies, hooks, fixtures, lcc.Threads and inside other blocks")
+EXPLANATION = EXPLANATION + (" An exception raised while an attachment is being prepared, before its file exists (a block that writes last, "
+                             "save_attachment_file on a missing source), is an uncaught exception like any other: Props/C02Attach proves for "
+                             "every exception kind that it fails the test / the setup / is logged by the lcc.Thread, and that leaving a block "
+                             "by an exception reports nothing by itself.")
 
 
 def streams(ctx):
